@@ -200,3 +200,79 @@ func TestRaceStress(t *testing.T) {
 	rec.Emit(Ev{"ev": "Stress", "ms": int(time.Since(t0) / time.Millisecond), "counts": counts, "final": true, "dir": filepath.Base(dir)})
 	cmu.Unlock()
 }
+
+// TestRaceCold: see below; run in a process of its own (built with -race), reports go to GORACE log_path.
+func TestRaceCold(t *testing.T) {
+	out := os.Getenv("VERIF_OUT")
+	if out == "" {
+		t.Skip("VERIF_OUT not set")
+	}
+	rec, err := NewRecorder(out)
+	must(err)
+	rec.Sync = true
+	defer rec.Close()
+	dir := scratchDir("verif.racecold.")
+	defer os.RemoveAll(dir)
+	env := NewEnv(dir)
+	InstallEnv(env)
+	defer InstallEnv(nil)
+	prometheus.DefaultRegisterer = prometheus.NewRegistry()
+	rest := api.CreateRestService()
+	t0 := time.Now()
+	done := 0
+	// cold starts: at daemon start all fans evaluate their (shared) curves for the first time at the same moment,
+	// while the sensor monitors and the API are already running. Many rounds, each on FRESH sensor and curve objects,
+	// all activities released together - this is where lazily initialised state shows.
+	rounds := envInt("VERIF_COLD_ROUNDS", 150)
+	for rd := 0; rd < rounds; rd++ {
+		sfx := uniq("cold")
+		sp := env.Register("s."+sfx, "sensor/"+sfx, 50000+rd*10)
+		s, err := sensors.NewSensor(configuration.SensorConfig{ID: "s" + sfx, File: &configuration.FileSensorConfig{Path: sp}})
+		must(err)
+		s.SetMovingAvg(50000)
+		sensors.RegisterSensor(s)
+		var cl []curves.SpeedCurve
+		for _, cc := range []configuration.CurveConfig{
+			{ID: "lin" + sfx, Linear: &configuration.LinearCurveConfig{Sensor: "s" + sfx, Min: 40, Max: 80}},
+			{ID: "st" + sfx, Linear: &configuration.LinearCurveConfig{Sensor: "s" + sfx, Steps: map[int]float64{30: 10, 50: 100, 70: 255}}},
+			{ID: "fn" + sfx, Function: &configuration.FunctionCurveConfig{Type: "average", Curves: []string{"lin" + sfx, "st" + sfx}}},
+			{ID: "top" + sfx, Function: &configuration.FunctionCurveConfig{Type: "maximum", Curves: []string{"fn" + sfx, "lin" + sfx}}},
+		} {
+			c, err := curves.NewSpeedCurve(cc)
+			must(err)
+			curves.RegisterSpeedCurve(c)
+			cl = append(cl, c)
+		}
+		creg := prometheus.NewRegistry()
+		creg.MustRegister(statistics.NewSensorCollector([]sensors.Sensor{s}), statistics.NewCurveCollector(cl))
+		gate := make(chan struct{})
+		var cw sync.WaitGroup
+		act := func(fn func()) {
+			cw.Add(1)
+			go func() {
+				defer cw.Done()
+				<-gate
+				for k := 0; k < 3; k++ {
+					fn()
+				}
+			}()
+		}
+		top := cl[3]
+		for k := 0; k < 3; k++ { // three fans sharing the top curve
+			act(func() { _, _ = top.Evaluate() })
+		}
+		act(func() { _, _ = cl[2].Evaluate() }) // a fourth fan on the nested curve
+		act(func() { _ = internal.VerifUpdateSensor(s) })
+		act(func() { _, _ = creg.Gather() })
+		act(func() {
+			req := httptest.NewRequest(http.MethodGet, "/curve/top"+sfx+"/", nil)
+			rest.ServeHTTP(httptest.NewRecorder(), req)
+		})
+		close(gate)
+		cw.Wait()
+		done++
+		if done%25 == 0 || done == rounds {
+			rec.Emit(Ev{"ev": "Stress", "ms": int(time.Since(t0) / time.Millisecond), "counts": map[string]int{"cold": done}, "final": done == rounds})
+		}
+	}
+}
